@@ -419,6 +419,7 @@ class Interproc:
         an.invariants = self.invariants
         an.nowrap = self.nowrap
         an.cargs = self.cargs_of(bid)
+        an.s9_unsigned = an.s9_unsigned or getattr(self, "s9_unsigned", False)
         an.mag = getattr(self, "mag", False)
         if an.mag:
             cfg = getattr(self, "mag_cfg", {})
